@@ -135,3 +135,30 @@ CTOR_ASSUMPTIONS = [
     "the known finding 'cross-direction de-duplication'",
     "add_interaction applied to the recorded (start, vanishing time) arguments is decided under C01/C03",
 ]
+
+
+def enumeration_users(repo: Repo, which):
+    """qualified construct -> (class, enumeration method) for the constructors / writers in ``which``."""
+    from sa.core import DYNGRAPH, DYNDIGRAPH, EDGELIST, NODELINK
+    table = {
+        "time_slice": [(DYNGRAPH, "DynGraph.time_slice", "DynGraph"), (DYNDIGRAPH, "DynDiGraph.time_slice", "DynDiGraph")],
+        "to_directed": [(DYNGRAPH, "DynGraph.to_directed", "DynGraph")],
+        "to_undirected": [(DYNDIGRAPH, "DynDiGraph.to_undirected", "DynDiGraph")],
+        "generate_snapshots": [(EDGELIST, "generate_snapshots", "DynGraph"), (EDGELIST, "generate_snapshots", "DynDiGraph")],
+        "node_link_data": [(NODELINK, "node_link_data", "DynGraph"), (NODELINK, "node_link_data", "DynDiGraph")],
+    }
+    import ast
+    out = {}
+    for name in which:
+        for rel, qual, cls in table[name]:
+            fn = repo.get(rel, qual)
+            used = None
+            for n in ast.walk(fn):
+                if isinstance(n, ast.Call) and isinstance(n.func, ast.Attribute) and n.func.attr in (
+                        "interactions_iter", "interactions", "out_interactions", "out_interactions_iter"):
+                    used = n.func.attr
+                    break
+            if used is None:
+                raise AnalysisError("%s: the enumeration of the source's interactions was not found" % qual)
+            out[repo.construct(rel, qual) + ("[G:%s]" % cls if "." not in qual else "")] = (cls, used)
+    return out
